@@ -58,10 +58,12 @@ def handle (j : Json) : R (List (String × Json)) := do
     let hyp := nodup && js.all (fun e => path.contains e.1 && path.contains e.2)
     let oracle : List (String × Json) :=
       match implR with
-      | none => [("perm", bool true), ("start", bool true), ("legs_in_surgered_set", bool true), ("cost_accounting", bool true)]
+      | none => [("perm", bool true), ("degree_preserving_move_uses_exactly_the_set", bool true), ("start", bool true), ("legs_in_surgered_set", bool true), ("cost_accounting", bool true)]
       | some q =>
         let exact := Lkh.moveOk path bs js && nodup && es.length == path.length && Lkh.usesExactly q es
+        let degMove := hyp && path.length ≥ 3 && es.length == path.length && Lkh.degOk path es
         [("perm", bool (!hyp || Lkh.isPermOf q path)),
+         ("degree_preserving_move_uses_exactly_the_set", bool (!degMove || Lkh.usesExactly q es)),
          ("start", bool (Lkh.sameStart q path)),
          ("legs_in_surgered_set", bool (Lkh.legsIn q es)),
          ("cost_accounting", bool (!exact ||
@@ -143,7 +145,15 @@ def handle (j : Json) : R (List (String × Json)) := do
       (match tiers.getLast? with
        | none => points.length ≤ 4
        | some t => t.all (fun kv => kv.2.length ≤ 4))
-    return [("model", Json.null),
+    -- exact model of the scan (propagation of unsplit clusters, map inserts, stop rules); the individual
+    -- `create_kmedoids(.., 2, ..)` calls are looked up in the implementation's own next tier
+    let tiersA := tiers.toArray
+    let splitImpl (i : Nat) (data : List Nat) : KMed.Clusters :=
+      match tiersA[i]? with
+      | none => []
+      | some tier => sortByKey (tier.filter (fun kv => !kv.2.isEmpty && KMed.inside kv.2 data))
+    let model := (KMed.createHier splitImpl points levels).map sortByKey
+    return [("model", jList jClusters model),
             ("oracle", Json.mkObj [
               ("per_split_contract", bool (KMed.specHier d points [points] tiers)),
               ("at_most_levels", bool (tiers.length ≤ levels)),
